@@ -71,7 +71,7 @@ MODEL_INVS = ("NeverEscapes", "Accepts", "NotCompilable", "Compilable", "LinesIn
 SLOTS = 8
 CHARSEQ = ("ff", "vt", "fs", "gs", "rs", "nel", "ls", "ps")      # Outcome!CharSeq
 NFLAGSETS = 32                                                   # Outcome!NFlagSets
-QUICK_SLICES = 24                                                # slices of the composed texts at quick tier
+QUICK_SLICES = 48                                                # slices of the composed texts at quick tier
 
 
 def _tset(xs):
@@ -166,8 +166,8 @@ def trace_plan(it):
   """the part of an item's plan TraceC15 reads (call shapes with their lines; the wanted class)"""
   pl = it.get("plan") or {"fam": "none"}
   if pl["fam"] == "call":
-    return {"fam": "call", "c": pl["c"],
-            "calls": [{"npos": c["npos"], "kws": c["kws"], "line": c["line"]} for c in it["calls"]]}
+    return {"fam": "call", "group": [{"c": g["c"], "calls": [{"npos": c["npos"], "kws": c["kws"], "line": c["line"]}
+                                                              for c in g["calls"]]} for g in it["group"]]}
   if pl["fam"] == "provoke":
     return {"fam": "provoke", "want": pl["want"]}
   return {"fam": pl["fam"]}
@@ -275,7 +275,7 @@ def build_inputs(run, thorough, plans, fam, deps_dir):
       add("mut%05d" % k, out, None, "mutant")
   # exotic characters in pool texts (MutateExo, optionally after Precondition "ann")
   exo = fam["exo"]
-  nx = 3000 if thorough else 2 * len(exo)
+  nx = 3000 if thorough else len(exo) // 3
   frng = random.Random(run.seed + 77)
   fpool = [s for s in pool if "def " in s]
   for k in range(nx):
@@ -289,14 +289,16 @@ def build_inputs(run, thorough, plans, fam, deps_dir):
     if out != src:
       add("exo%05d" % k, out, c["mode"], "exo", base=src, harmless=(kind != "ws-token" or ch == "ff"),
           annotated=pre and out.count("v_ann: int") > 0, plan={"fam": c["plan"]["fam"]})
-  # ill-typed calls: one text per callable shape, one call per line (mode alternates per plan)
+  # ill-typed calls: one text per parameter list and flag set (all kinds of callables), one call per line
   calls = [c for c in fam["call"] if c["mode"] == "infer"]
   for k, c in enumerate(calls):
-    src, cl = c15_fam.render_call(c["plan"])
-    add("call%05d" % k, src, "check" if (k + run.seed) % 4 == 0 else "infer", "call", plan=c["plan"], calls=cl)
-  # one provoking text per error class / formatter, in both modes
-  for c in fam["provoke"]:
+    src, grp = c15_fam.render_call(c["plan"])
+    add("call%04d" % k, src, "check" if (k + run.seed) % 4 == 0 else "infer", "call", plan=c["plan"], group=grp)
+  # one provoking text per error class / formatter (thorough: in both modes; quick: the mode alternates)
+  for k, c in enumerate(fam["provoke"]):
     pl = c["plan"]
+    if not thorough and (pl["k"] + run.seed) % 2 != (c["mode"] == "check"):
+      continue
     opts = {o: True for o in pl["opts"]}
     if pl["deps"]:
       opts["pythonpath"] = deps_dir
@@ -432,8 +434,17 @@ SPEC_CASES = [
 
 
 _F = {"kind": "def", "ps": ["self", "b"], "dflt": False, "star": False, "kw": False, "kwonly": False, "ann": False, "val": ""}
-_CALLPLAN = {"fam": "call", "c": _F, "calls": [{"npos": 0, "kws": [], "line": 3}, {"npos": 2, "kws": [], "line": 4},
-                                               {"npos": 3, "kws": ["first"], "line": 5}, {"npos": 1, "kws": ["zz"], "line": 6}]}
+_CALLS = [{"npos": 0, "kws": [], "line": 3}, {"npos": 2, "kws": [], "line": 4},
+          {"npos": 3, "kws": ["first"], "line": 5}, {"npos": 1, "kws": ["zz"], "line": 6}]
+
+
+def _callplan(**kw):
+  return {"fam": "call", "group": [{"c": {"kind": "value", "ps": [], "dflt": False, "star": False, "kw": False, "kwonly": False,
+                                          "ann": False, "val": "int"}, "calls": [{"npos": 0, "kws": [], "line": 1}]},
+                                   {"c": dict(_F, **kw), "calls": _CALLS}]}
+
+
+_CALLPLAN = _callplan()
 _RUN_OK = _MAIN + [("Run", "ok")] + _TAIL
 # synthetic runs of the planned families with the COVER line the spec must print: (case, hit, unknown, spurious)
 COVER_CASES = [
@@ -444,9 +455,9 @@ COVER_CASES = [
      ["duplicate-keyword-argument", "missing-parameter"], [], 0),
     (_case(_RUN_OK, nlines=7, plan=_CALLPLAN, errs=[("missing-parameter", 4)]), [], [], 1),       # the well-bound call blamed
     (_case(_RUN_OK, nlines=7, plan=_CALLPLAN, errs=[("wrong-arg-count", 3)]), [], [], 0),          # not the expected class
-    (_case(_RUN_OK, nlines=7, plan=dict(_CALLPLAN, c=dict(_F, ann=True)), errs=[("wrong-arg-types", 4)]),
-     ["wrong-arg-types"], [], 0),                                                                   # b: int gets 's'
-    (_case(_RUN_OK, nlines=7, plan=dict(_CALLPLAN, c=dict(_F, kind="method")), errs=[("missing-parameter", 3), ("wrong-arg-count", 4)]),
+    (_case(_RUN_OK, nlines=7, plan=_callplan(ann=True), errs=[("wrong-arg-types", 4), ("not-callable", 1)]),
+     ["not-callable", "wrong-arg-types"], [], 0),                                                                   # b: int gets 's'
+    (_case(_RUN_OK, nlines=7, plan=_callplan(kind="method"), errs=[("missing-parameter", 3), ("wrong-arg-count", 4)]),
      ["missing-parameter", "wrong-arg-count"], [], 0),                                              # the receiver is bound first
     (_case(_RUN_OK, plan={"fam": "provoke", "want": "bad-slots"}, errs=[("bad-slots", 2)]), ["bad-slots"], [], 0),
     (_case(_RUN_OK, plan={"fam": "provoke", "want": "bad-slots"}, errs=[("name-error", 2)]), None, [], 0),
@@ -543,12 +554,12 @@ def main():
   # (a) inputs x mutation plans x main pipeline (no sub-runs: `muts` only multiplies the state space)
   #     + the planned families (calls, provoking texts, composed texts, exotic characters in pool
   #     texts), exports the plans; quick enumerates a seed-chosen slice of each family (flag set 0 and
-  #     one more of the 32 flag sets of the callables; one of 24 slices of the composed texts, which
-  #     every (precondition, tail, region) meets twice; form feed and one more character in pool
+  #     one more of the 32 flag sets of the callables; one of 48 slices of the composed texts, which
+  #     every (precondition, tail, region) meets once; form feed and one more character in pool
   #     texts), thorough all of them;
   # (b) all inputs x pipeline with sub-runs (annotation evaluation) nested <= 2
   if thorough:
-    flags, chars, nsl, sl = list(range(NFLAGSETS)), list(CHARSEQ), 1, 0
+    flags, chars, nsl, sl = list(range(NFLAGSETS)), list(CHARSEQ), 3, run.seed % 3
   else:
     flags = [0, 1 + run.seed % (NFLAGSETS - 1)]
     chars = ["ff", CHARSEQ[1 + run.seed % (len(CHARSEQ) - 1)]]
@@ -573,8 +584,8 @@ def main():
   for k in ("exo", "call", "provoke", "compose"):
     run.put("plans_" + k, len(fam[k]))
   common.require(fam["catalogue"] and len(fam["catalogue"]) >= 50, "the pinned catalogue was not exported")
-  common.require(len(fam["exo"]) >= 2 * 3 * SLOTS * len(chars) and len(fam["call"]) >= 2 * 150 * len(flags)
-                 and len(fam["provoke"]) >= 2 * len(fam["catalogue"]) and len(fam["compose"]) >= 2 * 500,
+  common.require(len(fam["exo"]) >= 2 * 3 * SLOTS * len(chars) and len(fam["call"]) >= 2 * 10 * len(flags)
+                 and len(fam["provoke"]) >= 2 * len(fam["catalogue"]) and len(fam["compose"]) >= 2 * 250,
                  "plan export too small: %s" % {k: len(v) for k, v in fam.items() if isinstance(v, list)})
   print("  [model] states=%d+%d plans=%d exo=%d call=%d provoke=%d compose=%d t=%.0fs" % (
       r.distinct, r2.distinct, len(plans), len(fam["exo"]), len(fam["call"]), len(fam["provoke"]), len(fam["compose"]),
@@ -599,19 +610,32 @@ def main():
     tp = TimedPool(procs, keep=True)
     try:
       res = tp.map(items, lambda it: caps.get(it["family"], cap_small))
-      # a call text that crashed is taken apart: one text per call, so that every failing call gets
-      # its own record (a known crash of one call cannot hide a new crash of another one)
+      # a call text that crashed is taken apart: one text per callable; and where that still crashes with
+      # a key that is a KNOWN finding, one text per call - a known crash cannot hide a new one
+      known = {k["key"] for k in run.known if k["status"] == "known"}
+
+      def broken(rec):
+        return bool(rec) and (rec.get("crashed") or "died" in rec or "timeout" in rec)
       extra = []
       for it, rec in zip(items, res):
-        if it["family"] == "call" and rec and (rec.get("crashed") or "died" in rec or "timeout" in rec):
-          for j in range(len(it["calls"])):
-            src1, cl1 = c15_fam.render_call(it["plan"], only=j)
-            extra.append({"label": "%s#%02d" % (it["label"], j), "src": src1, "mode": it["mode"], "family": "call",
-                          "plan": it["plan"], "calls": cl1, "single": True})
+        if it["family"] == "call" and broken(rec):
+          for g in it["group"]:
+            src1, grp1 = c15_fam.render_call(it["plan"], only=(g["gi"],))
+            extra.append({"label": "%s#%d" % (it["label"], g["gi"]), "src": src1, "mode": it["mode"], "family": "call",
+                          "plan": it["plan"], "group": grp1, "single": True})
       if extra:
-        res += tp.map(extra, lambda it: cap_small)
-        items += extra
-        by_label.update({it["label"]: it for it in extra})
+        res1 = tp.map(extra, lambda it: cap_small)
+        extra2 = []
+        for it, rec in zip(extra, res1):
+          if broken(rec) and "C15:escaped:%s@%s" % (rec.get("exc_type", "?"), rec.get("site", "?")) in known:
+            gi = it["group"][0]["gi"]
+            for j in range(len(it["group"][0]["calls"])):
+              src2, grp2 = c15_fam.render_call(it["plan"], only=(gi, j))
+              extra2.append({"label": "%s#%02d" % (it["label"], j), "src": src2, "mode": it["mode"], "family": "call",
+                             "plan": it["plan"], "group": grp2, "single": True})
+        res += res1 + (tp.map(extra2, lambda it: cap_small) if extra2 else [])
+        items += extra + extra2
+        by_label.update({it["label"]: it for it in extra + extra2})
     finally:
       tp.close()
   finally:
@@ -653,15 +677,17 @@ def main():
       lines = {}
       for e in rec["errs"]:
         lines.setdefault(e[1], set()).add(e[0])
-      for c in it["calls"]:
-        if c["faults"] or c["tfault"]:
-          run.add("failed_calls")
-          if c["npos"] == 0 and not c["kws"]:
-            run.add("failed_calls_empty_arglist")
-            if it["plan"]["c"]["ps"] and it["plan"]["c"]["ps"][0] in ("self", "cls") and it["plan"]["c"]["kind"] in ("def", "lambda"):
-              run.add("failed_calls_empty_arglist_self_or_cls_function")
-          if lines.get(c["line"]):
-            run.add("failed_calls_reported")
+      for g in it["group"]:
+        c0 = g["c"]
+        for c in g["calls"]:
+          if c["faults"] or c["tfault"]:
+            run.add("failed_calls")
+            if c["npos"] == 0 and not c["kws"]:
+              run.add("failed_calls_empty_arglist")
+              if c0["ps"] and c0["ps"][0] in ("self", "cls") and c0["kind"] in ("def", "lambda"):
+                run.add("failed_calls_empty_arglist_self_or_cls_function")
+            if lines.get(c["line"]):
+              run.add("failed_calls_reported")
     if fam_ in ("compose", "exo") and it["harmless"]:
       # texts pytype rewrites before compiling (a bare annotation inside a plain function)
       rewritten = (it["plan"]["pre"] in ("ann-func", "ann-method", "ann-semi") if fam_ == "compose"
@@ -673,6 +699,8 @@ def main():
         elif rec["errs"] and max(e[1] for e in rec["errs"]) >= rec["nlines"] - 1:
           run.add("harmless_exotic_in_rewritten_text_with_error_on_last_line")
     recs.append(rec)
+  print("  [cpu seconds by family] " + " ".join("%s=%s" % (k[5:], v) for k, v in sorted(run.cov.items()) if k.startswith("secs_")),
+        flush=True)
   cover = {}
   nv = judge(run, recs, by_label, cover)
   run.put("traces_validated_against_impl", nv)
@@ -694,15 +722,15 @@ def main():
           "inputs_upstream": 1000 if thorough else 100, "fold_errors": 2, "skipped": 1,
           "runs_with_subruns": 200 if thorough else 20, "subruns_compile_error_caught": 1,
           # the strengthened families
-          "inputs_call": 4000 if thorough else 250, "inputs_provoke": 100, "inputs_compose": 10000 if thorough else 450,
-          "inputs_exo": 1000 if thorough else 40,
-          "failed_calls": 100000 if thorough else 5000, "failed_calls_reported": 90000 if thorough else 4500,
-          "failed_calls_empty_arglist": 1500 if thorough else 100,
+          "inputs_call": 400 if thorough else 25, "inputs_provoke": 100 if thorough else 55,
+          "inputs_compose": 4000 if thorough else 240, "inputs_exo": 1000 if thorough else 30,
+          "failed_calls": 60000 if thorough else 3000, "failed_calls_reported": 50000 if thorough else 2500,
+          "failed_calls_empty_arglist": 1000 if thorough else 60,
           "failed_calls_empty_arglist_self_or_cls_function": 100 if thorough else 8,
-          "exotic_harmless_confirmed": 8000 if thorough else 350, "exotic_invalid_confirmed": 2000 if thorough else 80,
-          "harmless_exotic_in_rewritten_text": 2000 if thorough else 80,
-          "harmless_exotic_in_rewritten_noncompilable_text": 800 if thorough else 30,
-          "harmless_exotic_in_rewritten_text_with_error_on_last_line": 400 if thorough else 15}
+          "exotic_harmless_confirmed": 4000 if thorough else 180, "exotic_invalid_confirmed": 1500 if thorough else 50,
+          "harmless_exotic_in_rewritten_text": 1000 if thorough else 50,
+          "harmless_exotic_in_rewritten_noncompilable_text": 300 if thorough else 15,
+          "harmless_exotic_in_rewritten_text_with_error_on_last_line": 150 if thorough else 8}
   vac = ["%s = %d < %d" % (k, run.cov.get(k, 0), v) for k, v in need.items() if run.cov.get(k, 0) < v]
   # vacuity on the error names observed, as named by TraceC15's COVER lines: every class of the pinned
   # catalogue is reported by its provoking text; the call family alone reaches every failed-call class
@@ -713,7 +741,12 @@ def main():
   missing = sorted(set(fam["catalogue"]) - set(hit_p))
   if missing:
     vac.append("error classes of the pinned catalogue not provoked by their text: %s" % missing)
-  missing = sorted(set(fam["callclasses"]) - set(hit_c))
+  # (the classes the enumerated slice of call plans expects at all: wrong-arg-types needs a flag set with annotations)
+  planned = {cl for c in fam["call"] for g in c["plan"]["group"] for call in g["calls"]
+             for cl in (call["faults"] or (["wrong-arg-types"] if call["tfault"] else []))}
+  common.require(planned >= set(fam["callclasses"]) - {"wrong-arg-types"} and (not thorough or planned == set(fam["callclasses"])),
+                 "the call plans do not expect every failed-call class: %s" % sorted(planned))
+  missing = sorted(planned - set(hit_c))
   if missing:
     vac.append("failed-call classes never reported where the spec expects them: %s" % missing)
   # a fault that is reported as a VIOLATION may itself empty a counter (a crashing report path reports
